@@ -39,7 +39,7 @@ var nilErr = Iface{}
 
 func strArg(v Value) (string, bool) {
 	s, ok := v.(Str)
-	if !ok || s.Code != nil {
+	if !ok || s.Code != nil || s.FNum != nil {
 		return "", false
 	}
 	if s.Num != nil {
@@ -169,8 +169,27 @@ func (e *Engine) sortIntSlice(st *State, v Value) {
 	st.heap[s.Cell] = &ArrayV{E: ne}
 }
 
+// asInt64 recognises float64 terms that are exact images of 64-bit integers: to_fp(signed bv) or
+// an integer-valued constant below 2^53. int64->float64 conversion is monotone, so max and min
+// commute with it and math.Max/Min of two such terms can be computed on the integers (no NaN, no
+// infinities, no negative zero can occur).
+func asInt64(t *smt.Term) (*smt.Term, bool) {
+	if t.Op == smt.OpSBVToFP && t.Sort == smt.FP64 && t.Args[0].Sort.W == 64 {
+		return t.Args[0], true
+	}
+	if t.IsConst() && t.Sort == smt.FP64 && t.F == math.Trunc(t.F) && math.Abs(t.F) < 9007199254740992 && !(t.F == 0 && math.Signbit(t.F)) {
+		return smt.IntC(int64(t.F)), true
+	}
+	return nil, false
+}
+
 // Go's math.Max / math.Min special cases.
 func goMax(x, y *smt.Term) *smt.Term {
+	if a, ok := asInt64(x); ok {
+		if b, ok := asInt64(y); ok {
+			return smt.SBVToFP(smt.Ite(smt.Slt(a, b), b, a), smt.FP64)
+		}
+	}
 	inf := smt.FPC(math.Inf(1))
 	nan := smt.FPC(math.NaN())
 	isPInf := func(t *smt.Term) *smt.Term { return smt.Eq(t, inf) }
@@ -182,6 +201,11 @@ func goMax(x, y *smt.Term) *smt.Term {
 }
 
 func goMin(x, y *smt.Term) *smt.Term {
+	if a, ok := asInt64(x); ok {
+		if b, ok := asInt64(y); ok {
+			return smt.SBVToFP(smt.Ite(smt.Slt(a, b), a, b), smt.FP64)
+		}
+	}
 	ninf := smt.FPC(math.Inf(-1))
 	nan := smt.FPC(math.NaN())
 	isNInf := func(t *smt.Term) *smt.Term { return smt.Eq(t, ninf) }
@@ -392,6 +416,9 @@ func registerIntercepts(e *Engine) {
 		s := args[0].(Str)
 		if s.Num != nil {
 			return one(st, Tuple{smt.SBVToFP(s.Num, smt.FP64), nilErr})
+		}
+		if s.FNum != nil {
+			return one(st, Tuple{s.FNum, nilErr})
 		}
 		if txt, ok := strArg(s); ok && !strings.HasPrefix(txt, "<") {
 			f, err := strconv.ParseFloat(txt, 64)
